@@ -135,12 +135,19 @@ def run_vector(work, idx, v, trace=True):
         args += ["-o", outpath]
     else:
         args += ["-d", out]
-    args.append(d)
+    inv = v.get("invocation", "absolute")
+    cwd = None
+    if inv == "absolute":
+        args.append(d)
+    else:          # from inside crate_a: `src` (+ the sibling crates by relative path) or `.`
+        cwd = os.path.join(d, "crate_a")
+        others = sorted({f.split("/")[0] for f in files if not f.startswith("crate_a/")})
+        args += (["src"] if inv == "relative_src" else ["."]) + [os.path.join("..", o, "src") for o in others]
     env = {"TYPESHARE_VERIF_THREADS": "2"}
     tr = os.path.join(d, "trace.ndjson")
     if trace:
         env["TYPESHARE_VERIF_TRACE"] = tr
-    r = cli.run_cli(args, env=env, timeout=WATCHDOG)
+    r = cli.run_cli(args, env=env, timeout=WATCHDOG, cwd=cwd)
     written = [f for f in cli.snapshot(out)] if os.path.isdir(out) else []
     stems = {os.path.splitext(os.path.basename(f))[0] for f in files}
     names = {"Edge": "edge", "EDGE": "edge", "Good": "good", "ZGood": "zgood", "Événement": "edge", "Inner": "inner"}
@@ -165,7 +172,7 @@ def outcome_class(r, written, files):
 
 def judge_vector(chk, v, r, written, files):
     oc = outcome_class(r, written, files)
-    key = (v["construct"], v["lang"], v["mode"], v["companion"], v.get("packages", "given"))
+    key = (v["construct"], v["lang"], v["mode"], v["companion"], v.get("packages", "given"), v.get("invocation", "absolute"))
     chk.judged(key)
     if oc == "exit0" or oc == "exit1-named":
         return oc
@@ -448,7 +455,7 @@ def run(chk):
             oc = judge_vector(chk, v, r, written, problem_files)
             outcomes[oc.split("@")[0]] = outcomes.get(oc.split("@")[0], 0) + 1
             if oc == "exit0" and not written and v["construct"] not in ("empty_file_marker",):
-                chk.mismatch(f"C07/{v['construct']}/{v['lang']}/exit0-without-output", f"{v}: exit 0 but nothing written",
+                chk.mismatch(f"C07/{v['construct']}/{v['lang'] if v.get('invocation', 'absolute') == 'absolute' else 'anylang+' + v['invocation'] + '+' + v['mode']}/exit0-without-output", f"{v}: exit 0 but nothing written",
                              {"vector": v}, "output written", "none")
             if oc != "hang":
                 runs.append((header, events, f"{v['construct']}/{v['lang']}/{v['mode']}/{v['companion']}", oc))
